@@ -190,6 +190,17 @@ pub fn gen_c12_case(g: &mut G) -> Value {
             "default": {"a": 4, "b": "bee", "c": false, "d": ["z", "y", "x"]}
         });
     }
+    if g.chance(1, 3) {
+        // conjunctions whose result has several members: enumerations that overlap partly,
+        // required sets and property sets contributed by both sides
+        doc["definitions"]["OverlapStates"] = json!({"type": "string", "enum": ["draft", "open", "blocked", "review", "merged", "closed"]});
+        doc["definitions"]["OverlapNarrowed"] = json!({"allOf": [{"$ref": "#/definitions/OverlapStates"}, {"enum": ["triaged", "open", "blocked", "review", "merged", "closed", "archived"]}]});
+        doc["definitions"]["OverlapInline"] = json!({"allOf": [{"type": "string", "enum": ["n", "e", "s", "w", "up"]}, {"type": "string", "enum": ["down", "w", "s", "e", "n"]}]});
+        doc["definitions"]["OverlapObjects"] = json!({"allOf": [
+            {"type": "object", "properties": {"b1": {"type": "integer"}, "a1": {"type": "string"}, "shared": {"type": "string", "enum": ["p", "q", "r", "s"]}}, "required": ["b1", "a1"]},
+            {"type": "object", "properties": {"d2": {"type": "integer"}, "c2": {"type": "string"}, "shared": {"type": "string", "enum": ["s", "r", "q", "zz"]}}, "required": ["d2", "c2", "shared"]}
+        ]});
+    }
     let settings = settings(g, &doc, true);
     json!({"settings": settings, "doc": doc, "perm": g.u64() % 1_000_000, "cli": false})
 }
